@@ -398,8 +398,15 @@ namespace bloch::compiler {
         bool isStatic = false;
         bool isVirtual = false;
         bool isOverride = false;
+        // 'final' may come before or after 'static': the documentation writes 'final static'
+        bool isFinalEarly = false;
         bool scanningModifiers = true;
         while (scanningModifiers) {
+            if (!isFinalEarly && check(TokenType::Final) && checkNext(TokenType::Static)) {
+                (void)advance();
+                isFinalEarly = true;
+                continue;
+            }
             if (match(TokenType::Static)) {
                 if (isStatic)
                     reportError("Duplicate 'static' modifier");
@@ -423,6 +430,11 @@ namespace bloch::compiler {
 
         std::vector<std::unique_ptr<AnnotationNode>> trailingAnnotations = parseAnnotations();
         for (auto& ann : trailingAnnotations) annotations.push_back(std::move(ann));
+
+        if (isFinalEarly && (check(TokenType::Constructor) || check(TokenType::Destructor) ||
+                             check(TokenType::Function))) {
+            reportError("'final' may only modify fields");
+        }
 
         if (match(TokenType::Constructor)) {
             if (!annotations.empty()) {
@@ -465,6 +477,9 @@ namespace bloch::compiler {
         }
 
         bool isFinalField = match(TokenType::Final);
+        if (isFinalField && isFinalEarly)
+            reportError("Duplicate 'final' modifier");
+        isFinalField = isFinalField || isFinalEarly;
         return parseFieldDeclaration(visibility, isFinalField, isStatic, std::move(annotations));
     }
 
